@@ -289,11 +289,101 @@ def Formula.wf (f : Formula) : Bool :=
   && (match f.suffix with | none => true | some s => suffixesL.contains s)
   && (f.charge.isSome || lastFinalOK f.parts)
 
+mutual
+/-- no decimal count anywhere in the term (mirrors `not formula_gen.has_decimal`) -/
+def Term.noDec : Term → Bool
+  | .elem _ n _ _ => !n.isDec
+  | .group _ body n _ _ => body.noDec && !n.isDec
+  | .cage body => body.noDec
+def Terms.noDec : Terms → Bool
+  | .nil => true
+  | .cons t ts => t.noDec && ts.noDec
+end
+
+/-- an integer-only formula: every written count is omitted or an integer -/
+def Formula.noDecimal (f : Formula) : Bool := f.parts.all (fun p => p.terms.noDec)
+
 /-- well-formed formula ASTs: the domain of the round-trip theorem -/
 def Formula.WF (f : Formula) : Prop := f.wf = true
 instance (f : Formula) : Decidable f.WF := inferInstanceAs (Decidable (f.wf = true))
 
 def Term.WF (t : Term) : Prop := t.wf = true
 def Terms.WF (ts : Terms) : Prop := ts.wf = true
+
+
+/-! ### string-level denotation (value specification for EVERY accepted text, not only rendered ASTs)
+
+`Den u occ`: the text `u` is a sequence of terms (whitespace allowed between tokens, states and marks after a term, counted
+cages) and `occ` lists its element occurrences in reading order, each with the product of the counts of the enclosing groups /
+cages. `PartsRead` / `readOcc` add the hydrate multipliers. Used by `accepted_value_sound` (Props/C01). -/
+
+/-- pyparsing's default whitespace characters -/
+def isWs (c : Char) : Bool := c == ' ' || c == '\t' || c == '\n' || c == '\r'
+
+/-- `term[1] *= mult` for every pair of the sub-formula -/
+def scale (m : Rat) (c : Comp) : Comp := c.map fun p => (p.1, p.2 * m)
+
+/-- text that carries no amount: whitespace, state symbols, prime/star marks -/
+inductive Silent : List Char → Prop
+  | nil : Silent []
+  | ws (c : Char) (r : List Char) : isWs c = true → Silent r → Silent (c :: r)
+  | state (st : St) (r : List Char) : Silent r → Silent (st.text ++ r)
+  | mark (c : Char) (r : List Char) : isMark c = true → Silent r → Silent (c :: r)
+
+/-- what may be written after an element symbol, a closing bracket or a cage body: optional whitespace, an optional
+    count whose value is `n` (1 when omitted), then whitespace / a state symbol / marks -/
+def TailOf (tl : List Char) (n : Rat) : Prop :=
+  ∃ (w : List Char) (cnt : Cnt) (rest : List Char),
+    (∀ c ∈ w, isWs c = true) ∧ cnt.wf = true ∧ n = cnt.val ∧ Silent rest ∧ tl = w ++ (cnt.render ++ rest)
+
+/-- string-level denotation: `Den u occ` — the text `u` is a sequence of terms (elements, bracket groups, cages, with
+    whitespace anywhere between tokens) and `occ` lists its element occurrences in reading order, each with the product of the
+    counts of the groups / cages enclosing it -/
+inductive Den : List Char → Comp → Prop
+  | nil : Den [] []
+  | ws (c : Char) (r : List Char) (occ : Comp) : isWs c = true → Den r occ → Den (c :: r) occ
+  | elem (z : Nat) (tl : List Char) (n : Rat) (r : List Char) (occ : Comp) :
+      1 ≤ z → z ≤ 118 → TailOf tl n → Den r occ → Den (symChars z ++ (tl ++ r)) ((z, n) :: occ)
+  | group (b : Br) (u : List Char) (occu : Comp) (tl : List Char) (n : Rat) (r : List Char) (occ : Comp) :
+      Den u occu → occu ≠ [] → TailOf tl n → Den r occ → Den (b.op :: (u ++ b.cl :: (tl ++ r))) (scale n occu ++ occ)
+  | cage (u : List Char) (occu : Comp) (tl : List Char) (n : Rat) (r : List Char) (occ : Comp) :
+      Den u occu → occu ≠ [] → TailOf tl n → Den r occ → Den ('@' :: (u ++ (tl ++ r))) (scale n occu ++ occ)
+
+/-- `c` (a dict or pair list returned by the parser) and `occ` (occurrences) have the same per-key totals and key sets -/
+def Equiv (c occ : Comp) : Prop := ∀ k, total c k = total occ k ∧ (k ∈ Comp.keys c ↔ k ∈ Comp.keys occ)
+
+/-- how one hydrate part is read: leading ASCII digits give the multiplier `m` (1 when absent; the first part never has any),
+    the rest is the electron `e` (no occurrences) or a text with denotation `occ` -/
+def PartReads (first : Bool) (piece : List Char) (m : Rat) (occ : Comp) : Prop :=
+  ∃ ds text, piece = ds ++ text ∧ (∀ c ∈ ds, c.isDigit = true) ∧ (first = true → ds = []) ∧
+    m = (if ds = [] then 1 else ((digitsVal ds : Nat) : Rat)) ∧ ((text = ['e'] ∧ occ = []) ∨ Den text occ)
+
+inductive PartsRead : Bool → List (List Char) → List (Rat × Comp) → Prop
+  | nil (b : Bool) : PartsRead b [] []
+  | cons (b : Bool) (p : List Char) (ps : List (List Char)) (m : Rat) (occ : Comp) (rd : List (Rat × Comp)) :
+      PartReads b p m occ → PartsRead false ps rd → PartsRead b (p :: ps) ((m, occ) :: rd)
+
+/-- all element occurrences of the parts, each multiplied by its part's multiplier -/
+def readOcc (rd : List (Rat × Comp)) : Comp := rd.flatMap (fun p => scale p.1 p.2)
+
+
+/-! ### the charge number as `int()` reads ASCII text -/
+
+/-- ASCII characters that `int()` strips from both ends of its argument -/
+def isPySpace (c : Char) : Bool :=
+  c == ' ' || c == '\t' || c == '\n' || c == '\r' || c == '\x0b' || c == '\x0c'
+
+/-- digit groups joined by single underscores -/
+def joinUnders : List (List Char) → List Char
+  | [] => []
+  | [g] => g
+  | g :: gs => g ++ '_' :: joinUnders gs
+
+/-- the text of a well-formed charge number: blanks, digit groups joined by single underscores, blanks -/
+def IntText (rest : List Char) (n : Nat) : Prop :=
+  ∃ (w1 w2 : List Char) (gs : List (List Char)),
+    (∀ c ∈ w1, isPySpace c = true) ∧ (∀ c ∈ w2, isPySpace c = true) ∧ gs ≠ [] ∧
+    (∀ g ∈ gs, g ≠ [] ∧ ∀ c ∈ g, c.isDigit = true) ∧ rest = w1 ++ (joinUnders gs ++ w2) ∧ n = digitsVal gs.flatten
+
 
 end ChemModel.Formula
